@@ -262,6 +262,10 @@ func (g *gen) annotations() []Annotation {
 	}
 	g.feat("annotations")
 	out := []Annotation{{Name: words[g.rng.Intn(len(words))], Value: "v" + fmt.Sprint(g.rng.Intn(100))}}
+	if g.rng.Intn(4) == 0 {
+		out[0].Value = []string{"tab\tsep", "back\\slash", "it's", "say \"hi\""}[g.rng.Intn(4)]
+		g.feat("annotation_value_with_escape")
+	}
 	if g.rng.Intn(3) == 0 {
 		out = append(out, Annotation{Name: "note." + words[g.rng.Intn(len(words))], Value: "two words"})
 	}
@@ -853,7 +857,7 @@ func (g *gen) literalFor(t *Type, depth int) interface{} {
 	case "double":
 		return float64(g.rng.Intn(2000000)-1000000) / 64
 	case "string":
-		return []string{"", "plain", "with space", "quote\"inside", "apostrophe's", "unicode é中"}[g.rng.Intn(6)]
+		return []string{"", "plain", "with space", "quote\"inside", "apostrophe's", "unicode é中", "tab\there", "back\\slash", "line\nbreak", "ctl\x01x"}[g.rng.Intn(10)]
 	case "binary":
 		return nil
 	case "list", "set":
@@ -1116,6 +1120,14 @@ func (g *gen) genScope() *Scope {
 	for i := 0; i < ntok; i++ {
 		if g.rng.Intn(3) == 0 {
 			v := vn.make(0, 1)
+			switch g.rng.Intn(4) {
+			case 0:
+				v = vn.make(2, 2) // snake_case
+				g.feat("prefix_variable_snake")
+			case 1:
+				v = vn.make(0, 2) + fmt.Sprint(g.rng.Intn(10))
+				g.feat("prefix_variable_digit")
+			}
 			if g.cfg.OneLetterPrefixVar && g.rng.Intn(3) == 0 {
 				v = string(rune('a' + g.rng.Intn(26)))
 				g.feat("one_letter_prefix_variable")
